@@ -308,9 +308,40 @@ fn c02_draw_iter_one_pixel<const W: u16, const H: u16>() {
     kani::cover!(inb);
     kani::cover!(!inb && x >= 0 && y >= 0);
 }
+/// default configuration of a WxH panel (no symbolic options): fast enough for every run
+fn default_display<'a, const W: u16, const H: u16>(clock: &'a Clock) -> Disp<'a, W, H> {
+    let r = crate::Builder::new(FbModel::<W, H>, RecIface::new(clock)).reset_pin(MockPin::new(clock)).init(&mut MockDelay(clock));
+    let mut d = match r { Ok(d) => d, Err(_) => { kani::assume(false); unreachable!() } };
+    d.di = RecIface::new(clock);
+    clock.ops.set(0);
+    d
+}
+/// the same single-pixel statement on the default configuration
 #[kani::proof]
-#[kani::unwind(4)]
+#[kani::unwind(10)]
+fn c02_draw_iter_one_pixel_default() {
+    use embedded_graphics_core::draw_target::DrawTarget;
+    use embedded_graphics_core::geometry::Point;
+    use embedded_graphics_core::Pixel;
+    let clock = Clock::new();
+    let mut d = default_display::<240, 320>(&clock);
+    let (x, y): (i32, i32) = (kani::any(), kani::any());
+    let r = d.draw_iter(core::iter::once(Pixel(Point::new(x, y), any_color())));
+    assert!(r.is_ok(), "C02: draw_iter returned an error on a fault-free bus");
+    let inb = x >= 0 && y >= 0 && x < 240 && y < 320;
+    if inb {
+        assert!(d.di.ncmd == 3 && d.di.px_calls == 1 && d.di.px_count == 1, "C08: one window, one pixel");
+        let (sc, sr, ec, er) = window_at(&d, 0);
+        assert!(sc == ec && sr == er && sc as i32 == x && sr as i32 == y, "C02: C08: 1x1 window at the pixel");
+    } else {
+        assert!(d.di.ncmd == 0 && d.di.px_calls == 0, "C02: an out-of-bounds pixel was not discarded");
+    }
+    kani::cover!(inb);
+    kani::cover!(!inb && x >= 0 && y >= 0);
+}
+#[kani::proof]
+#[kani::unwind(10)]
 fn c02_draw_iter_one_pixel_240x320() { c02_draw_iter_one_pixel::<240, 320>() }
 #[kani::proof]
-#[kani::unwind(4)]
+#[kani::unwind(10)]
 fn c02_draw_iter_one_pixel_max() { c02_draw_iter_one_pixel::<65535, 65535>() }
